@@ -107,10 +107,14 @@ Section C02Model.
   Definition norm_axis (a : V3) : V3 := if neqb O (v3norm2 O a) one then a else v3unit a.
   Definition cv_distance_z_fixed (pbc : bool) (cell : option V3) (axis : V3) (main ref : list atom) : T :=
     v3dot O (norm_axis axis) (pdist pbc cell (com ref) (com main)).
+  (* axis through the centres of ref and ref2; the displacement is measured from their midpoint, which with
+     minimum-image distances is ref + (minimum-image vector ref -> ref2)/2 (repaired by a fix: commit: the plain
+     average of the two centres jumped by half a cell when one group sat in another periodic image) *)
   Definition cv_distance_z_ref2 (pbc : bool) (cell : option V3) (main ref ref2 : list atom) : T :=
     let c1 := com ref in let c2 := com ref2 in
-    let d := pdist pbc cell (v3scale O (nhalf O) (v3add O c1 c2)) (com main) in
-    v3dot O (v3unit (pdist pbc cell c1 c2)) d.
+    let a := pdist pbc cell c1 c2 in
+    let mid := if pbc then v3add O c1 (v3scale O (nhalf O) a) else v3scale O (nhalf O) (v3add O c1 c2) in
+    v3dot O (v3unit a) (pdist pbc cell mid (com main)).
   Definition ortho_norm (axis d : V3) : T := v3norm (v3sub O d (v3scale O (v3dot O d axis) axis)).
   Definition cv_distance_xy_fixed (pbc : bool) (cell : option V3) (axis : V3) (main ref : list atom) : T :=
     ortho_norm (norm_axis axis) (pdist pbc cell (com ref) (com main)).
@@ -139,8 +143,9 @@ Section C02Model.
   (* ---------------------------------------------------------------- angles (degrees) *)
   Variable pi : T.
   Definition deg (x : T) : T := (nofZ O 180 / pi) * x.
+  (* the cosine is clamped to [-1,1] before acos (collinear vectors; repaired by a fix: commit, see known_findings.txt) *)
   Definition angle_of (r21 r23 : V3) : T :=
-    deg (nacos O (v3dot O r21 r23 / (v3norm r21 * v3norm r23))).
+    deg (nacos O (clamp1 O (v3dot O r21 r23 / (v3norm r21 * v3norm r23)))).
   Definition cv_angle (pbc : bool) (cell : option V3) (g1 g2 g3 : list atom) : T :=
     let c2 := com g2 in angle_of (pdist pbc cell c2 (com g1)) (pdist pbc cell c2 (com g3)).
   Definition cv_dipole_angle (pbc : bool) (cell : option V3) (g1 g2 g3 : list atom) : T :=
